@@ -189,6 +189,14 @@ def worker(cfg):
 
 def replay(v):
     driver.assert_repo_import()
+    if v['cfg'].get('kind') in ('polar', 'complex', 'float'):
+        # the formatter link (rendering of the number handed over): harness/C18.py
+        from harness import C18
+        rep = sx.run_concrete(C18.execute, v['cfg'], sx.inputs_from_json(v.get('inputs', {})), v.get('labels') or {})
+        print(json.dumps({'cfg': v['cfg'], 'inputs': v.get('inputs'), 'result': rep}, indent=1, default=str))
+        if rep['bad']:
+            print(f'REPRODUCED property={PID}'); return 1
+        print('not reproduced'); return 0
     cfg = dict(v['cfg']); cfg['items'] = [tuple(x) for x in cfg['items']]; cfg['coords'] = [tuple(x) for x in cfg['coords']]
     rep = sx.run_concrete(execute, cfg, sx.inputs_from_json(v.get('inputs', {})), v.get('labels') or {})
     print(json.dumps({'cfg': v['cfg'], 'inputs': v.get('inputs'), 'result': rep}, indent=1, default=str))
@@ -234,9 +242,15 @@ def main(tier):
             driver.guarded(worker)(dict(next(c for c in cfgs if c['solution'] == k)))
     rep.functions |= ft.seen
     driver.run_pool(driver.guarded(worker), cfgs, rep, chunksize=1)
+    # the other link of the chain: the formatter renders the number it is handed with the right sign / angle (subset of harness/C18.py:
+    # Cartesian and polar complex renderings, radians and degrees, in decades away from the two recorded C18 findings)
+    from harness import C18
+    fc = [dict(c, pid_=PID) for c in C18.configs(tier, driver.seed_of())[0]
+          if (c['kind'] == 'polar' and c['k'] in (0, 4) and c['p'] in (3, 4)) or (c['kind'] == 'complex' and min(c['kr'], c['ki']) >= 0)]
+    driver.run_pool(driver.guarded(C18.worker), fc, rep, chunksize=2)
     return rep.finish(
         explanation='bounded symbolic verification of the annotation plumbing: for drawings (series loops with reversed / unreversed DC, AC, complex sources, R, L, C, impedance, lamp; symbolic values; symbolic frequency) every adapter getter in both directions and every draw_* factory is executed with the formatter and the label classes replaced by recording stubs; z3 / normal form shows that the number handed to the formatter equals the circuit solution quantity in the element\'s reference direction, negated exactly when reverse is requested, with the right unit, frequency and unchanged display options; the sinusoidal annotation carries the peak phasor (= sqrt(2) x the RMS phasor of the complex annotation), the real annotation equals Re(sqrt(2) x complex at w = 0); arrow directions are reverse XOR element-reversed; the declarative description filters unknown parameters; unknown element names raise',
-        assumptions=['the text rendering of the number is the subject of C18 (formatters are recording stubs here); the phase / frequency text of print_sinosoidal is not discharged', 'connectivity of the drawing is the subject of C13 (concrete coordinates here)',
+        assumptions=['the chain is checked link by link: the adapters / factories with the formatters as recording stubs, and the formatter (ScientificComplex, Cartesian and polar, radians and degrees; ScientificFloat) on a symbolic value with the C18 machinery for a subset of decades (the full decade range is C18); the phase / frequency text of print_sinosoidal is not discharged', 'connectivity of the drawing is the subject of C13 (concrete coordinates here)',
                      'schemdraw label placement is stubbed', 'exact field arithmetic; contract stub for np.linalg.solve'],
         bounds={'drawings': 'series loops of a source and two passive symbols with ground; reversed and unreversed sources and resistors', 'solution kinds': ['real', 'complex', 'complex_w', 'time', 'declarative'],
                 'options': 'precision, polar, deg, hertz, sin combinations' + (' (all 8 for the time-domain adapter)' if tier == 'thorough' else ' (subset)')},
